@@ -174,7 +174,7 @@ def units(tier):
 
 
 META = {
-    "level": "proof",
+    "level": "other",
     "explanation": "Generator-state contracts (old-style generator): every draw is a pure function of (state, arguments); reproducibility from the seed follows.",
     "trusted_base": ["CBMC 6.11", "IEEE-754 doubles as implemented by CBMC / cvc5"],
     "assumptions": [],
@@ -182,7 +182,7 @@ META = {
                     "values within bounds for truncated Gaussian draws (exp/log/sqrt)", "FFT/SPDE/Gibbs simulators, facies"],
 }
 MANIFEST = {
-    "category": "proof",
+    "category": "other",
     "text": "Contracts on the process-wide random generator: state transition and value drawn are functions of (state, arguments) only; integer draws stay in range.",
     "note": "Old-style generator only; wrap-around of the int product assumed (formally UB for large states).",
     "design_ref": "DESIGN.md 3 C13",
